@@ -12,7 +12,9 @@ fn strategy(tier: Tier) -> BoxedStrategy<Case> {
     use proptest::prelude::*;
     let base = gen::case_strategy(GenOpts { max_n: tier.pick(400, 1500), big_n_weight: 1, masks: MaskMode::Mixed, max_offset_log2: 20, ..GenOpts::default() });
     // 4 % shell inputs: a cell with hundreds of faces
-    prop_oneof![24 => base, 1 => gen::shell_strategy(tier.pick(400, 1500))].boxed()
+    // 0.7 % clump inputs: a dense clump of 1200..3000 (thorough: to 6000) generators next to a
+    // few big cells (thousands of candidates that leave a cell untouched)
+    prop_oneof![144 => base, 6 => gen::shell_strategy(tier.pick(400, 1500)), 1 => gen::clump_strategy(1200, tier.pick(3000, 6000))].boxed()
 }
 
 pub fn check(c: &Case, cs: &mut CaseStats) -> Result<(), String> {
@@ -224,7 +226,7 @@ pub fn def() -> PropDef {
         check,
         cases: |t| t.pick(5000, 200_000),
         profiles: &["release"],
-        required: &["periodic", "reflective", "mask:mixed", "dim1", "dim2", "dim3", "with-faces-route", "fam:H"],
+        required: &["periodic", "reflective", "mask:mixed", "dim1", "dim2", "dim3", "with-faces-route", "fam:H", "fam:C"],
         fixed: None,
         assumptions: &["valid input as in C01", "cells with an ill-conditioned vertex (or neighbour), 1D/2D cases at coordinates > 1e10 and unresolvable arrangements are exempt from the closure identities (known findings)"],
     }
